@@ -96,12 +96,12 @@ def run_harness(ws, args, cases=None, timeout=3000):
     return res
 
 
-def validate_traces(ctx, name, lines, work_id="c11-trace", timeout=3000):
+def validate_traces(ctx, name, lines, work_id="c11-trace", timeout=3000, cfg="Trace_WsEndpoint.cfg"):
     """TLC (Trace_WsEndpoint) on a list of trace lines. Returns (TLCResult, rejected list)."""
     tr = os.path.join(vlib.workdir("C11"), "%s-%d.ndjson" % (work_id, os.getpid()))
     vlib.write_lines(tr, lines)
     try:
-        t = run_tlc("Trace_WsEndpoint.tla", "Trace_WsEndpoint.cfg", D, workers=1, env={"TRACE": tr}, timeout=timeout,
+        t = run_tlc("Trace_WsEndpoint.tla", cfg, D, workers=1, env={"TRACE": tr}, timeout=timeout,
                     work_id=work_id, heap="8g")
     finally:
         os.remove(tr)
@@ -114,6 +114,39 @@ def validate_traces(ctx, name, lines, work_id="c11-trace", timeout=3000):
     if name:
         ctx.add_tlc(name, t)
     return t, rej
+
+
+def judge(ctx, items):
+    """Second level of judging. `items` are connections the strict comparison (the code model's frame-by-frame output,
+    clean end of stream, no client-side trouble) did not accept: (trace line, description, replay object). Their logs are
+    judged against the statement itself (Trace_WsEndpointProp.cfg: same messages / Pongs / Close in the same order in a
+    well-formed frame sequence, however messages are cut into frames). Rejected there = VIOLATION; accepted = the code
+    differs from today's code model in a way the statement allows = SPEC-DRIFT (never changes the exit code)."""
+    if not items:
+        return 0, 0
+    lines = []
+    for i, (line, what, obj) in enumerate(items):
+        l = dict(line)
+        l["c"] = i + 1
+        lines.append(l)
+    t, rej = validate_traces(ctx, "second-level judging of %d connection(s) against the statement (message level)" % len(items),
+                             lines, work_id="c11-judge", cfg="Trace_WsEndpointProp.cfg")
+    bad = {x["c"]: x for x in rej}
+    if -1 in bad:      # TLC could not replay the logs at all: every one of them stays a violation
+        bad = {i + 1: bad[-1] for i in range(len(items))}
+    nv = nd = 0
+    for i, (line, what, obj) in enumerate(items):
+        x = bad.get(i + 1)
+        if x is not None:
+            nv += 1
+            if nv <= 20:
+                ctx.violation("%s [statement-level judge: rejected at event %s: %s]" % (what[:1500], x["at"], str(x["ev"])[:300]), obj)
+            else:
+                ctx.violations.append(("(further violating connection)", obj))
+        else:
+            nd += 1
+            ctx.drift("C11 output framing / code model", "%s [accepted by the statement-level judge]" % what[:1500], obj)
+    return nv, nd
 
 
 def validate_accepts(ctx, name, results, limit, work_id="c11-accept", corrupt=False):
@@ -227,14 +260,12 @@ def replay_one(ctx, ws, path):
     r = res[0]
     ctx.cov["evaluations"] += 1
     ctx.sample(brief(c))
-    if r.get("mismatch"):
-        ctx.violation("replayed connection disagrees with the spec: %s" % "; ".join(r["mismatch"])[:1500],
-                      {"kind": "ws-case", "case": c, "observed": r["obs"]})
     t, rej = validate_traces(ctx, "trace validation of the replayed connection", [trace_line(r)])
     ctx.cov["traces_validated_against_impl"] += 1
-    if rej:
-        ctx.violation("log of the replayed connection rejected by Trace_WsEndpoint at event %s: %s" % (rej[0]["at"], rej[0]["ev"]),
-                      {"kind": "ws-trace", "case": r["case"], "rejected": rej[0], "ev": r["ev"]})
+    if r.get("mismatch") or rej:
+        what = "replayed connection disagrees with the spec: %s %s" % (
+            "; ".join(r.get("mismatch") or [])[:1200], ("(log rejected at event %s: %s)" % (rej[0]["at"], rej[0]["ev"])) if rej else "")
+        judge(ctx, [(trace_line(r), what, {"kind": "ws-case" if "exp" in c else "ws-trace", "case": c, "observed": r["obs"], "ev": r["ev"]})])
     ctx.cov["distinct_nontrivial"] = 1 if nontrivial(c) else 0
     ctx.cov["rule"] = "single connection re-run from a replay file"
     return ctx.finish()
@@ -298,7 +329,9 @@ def run(tier, replay):
             if k in cases:
                 if cases[k]["exp"] != c["exp"] and c["exp"] not in cases[k].get("exp_alt", []):
                     # one script, two outcomes: only where the spec leaves the outcome open (request spelled in another case)
-                    if c["hsv"] == "canon":
+                    eof_either = (c["mode"] == "nonblocking" and c["end"] == "shut"
+                                  and dict(c["exp"], failed=None) == dict(cases[k]["exp"], failed=None))
+                    if c["hsv"] == "canon" and not eof_either:      # leniencies: request spelling, EofPollEither
                         raise vlib.ToolError("the spec predicts two different outcomes for one script: %s" % k[:400])
                     cases[k].setdefault("exp_alt", []).append(c["exp"])
                 continue
@@ -356,12 +389,12 @@ def run(tier, replay):
                  mixed_poll_then_push_6MiB_to_slow_reader=sum(1 for c in clist if c.get("pre") == "pollpush" and sum(x["n"] for x in c["push"]) > (1 << 20)),
                  nothing_yet_results=sum(r["nones"] for r in res),
                  connections_with_a_call_entered_on_a_partial_header=sum(1 for r in res if r["partial"]))
-    for r in bad[:20]:
-        c = clist[r["c"] - 1]
-        ctx.violation("behaviour %s: %s" % (json.dumps(brief(c)), "; ".join(r["mismatch"]))[:1800],
-                      {"kind": "ws-case", "case": c, "observed": r["obs"], "ev": r["ev"]})
-    for r in bad[20:]:
+    nv, nd = judge(ctx, [(trace_line(r), "behaviour %s: %s" % (json.dumps(brief(clist[r["c"] - 1])), "; ".join(r["mismatch"])),
+                          {"kind": "ws-case", "case": clist[r["c"] - 1], "observed": r["obs"], "ev": r["ev"]}) for r in bad[:3000]])
+    for r in bad[3000:]:
         ctx.violations.append(("(further mismatching behaviour)", {"kind": "ws-case", "case": clist[r["c"] - 1]}))
+    ctx.cov["parts"]["behaviour replay"]["mismatches_judged_violation"] = nv + max(0, len(bad) - 3000)
+    ctx.cov["parts"]["behaviour replay"]["mismatches_judged_drift"] = nd
     for c in (clist[len(clist) // 3], clist[len(clist) // 2], clist[-1]):
         ctx.sample(brief(c))
 
@@ -392,11 +425,19 @@ def run(tier, replay):
                  max_frames=max(len(r["case"]["frames"]) for r in rres),
                  max_payload=max([sum(x["n"] for x in f["pay"]) for r in rres for f in r["case"]["frames"]] or [0]))
     rr = {RANDOM_BASE + r["c"]: r for r in rres}
-    for x in rej[:20]:
+    jitems = []
+    for x in rej:
         r = rr.get(x["c"]) or by_c.get(x["c"])
-        ctx.violation("log rejected by Trace_WsEndpoint at event %s (%s); script %s" % (
-            x["at"], str(x["ev"])[:600], json.dumps(brief(r["case"])) if r else "?"),
-            {"kind": "ws-trace", "case": r["case"] if r else None, "rejected": x, "ev": r["ev"] if r else None})
+        what = "log rejected by Trace_WsEndpoint at event %s (%s); script %s" % (
+            x["at"], str(x["ev"])[:600], json.dumps(brief(r["case"])) if r else "?")
+        obj = {"kind": "ws-trace", "case": r["case"] if r else None, "rejected": x, "ev": r["ev"] if r else None}
+        if r is None:
+            ctx.violation(what, obj)
+        else:
+            jitems.append((trace_line(r, x["c"]), what, obj))
+    tv, td = judge(ctx, jitems)
+    ctx.cov["parts"]["trace validation"]["rejected_judged_violation"] = tv
+    ctx.cov["parts"]["trace validation"]["rejected_judged_drift"] = td
 
     # ---- 3b. the accept values, recomputed by TLC from the RFC definitions of SHA-1 and Base64
     alines, arej = afut.result()
@@ -458,6 +499,8 @@ def run(tier, replay):
         "Sec-WebSocket-Accept: for every model key and a sample of the random keys TLC recomputes Base64(SHA-1(key+GUID)) with spec/codec/{Sha1,Base64}.tla (WsAccept.tla) and compares it with the server's answer and with the harness' own straightforward SHA-1/Base64; for the remaining random keys the wanted value is the harness' implementation, which that comparison cross-checks",
         "FIONREAD before a receive call is a lower bound on what had arrived; TIOCOUTQ = 0 on the client means everything written has arrived",
         "the payload of a Close reply is not prescribed by the property: any well-formed Close is accepted",
+        "leniencies where the statement is silent: a request spelled in another letter case may or may not be upgraded; a poll at the end of the stream with nothing pending may report `nothing yet` or an error (EofPollEither); the Debug text of errors, response headers other than the status code and Sec-WebSocket-Accept, and the reason phrase are not looked at",
+        "two-level judging: a connection the strict comparison rejects (frame-by-frame equality with today's one-frame-per-message output, clean end of stream) is re-judged by TLC at message level (Trace_WsEndpointProp.cfg); only a rejection there is a VIOLATION, otherwise it is reported as SPEC-DRIFT",
         "client scripts are conforming (RFC 6455 5.4/5.5): fragments in order, control frames final and <= 125 bytes; text payloads are ASCII",
         "delivery is folded into the server's reads (every read observes some amount between what was observed before and what was written), which has the same behaviours as an explicit network process because every guard is a threshold on the amount arrived",
     ]
